@@ -55,6 +55,14 @@ SHAPES = {
     "never-compared-helper-call": ["s = snapshot(make())"],
     "never-compared-defaultdict": ["from collections import defaultdict", "s = snapshot(defaultdict(list))"],
     "never-compared-defaultdict-filled": ["from collections import defaultdict", "s = snapshot(defaultdict(list, {'a': [1]}))"],
+    "never-compared-star-list": ["v = [1, 2]", "s = snapshot([*v, 3+0])"],
+    "never-compared-star-dict": ["v = {'a': 1}", "s = snapshot({**v, 'b': 2+0})"],
+    "never-compared-star-call-args": ["v = [1, 2]", "s = snapshot(DC(*v))"],
+    "never-compared-star-call-kwargs": ["v = {'x': 1}", "s = snapshot(DC(**v))"],
+    "never-compared-star-call-mixed": ["v = {'y': 2}", "s = snapshot([DC(x=1+0, **v), 0])"],
+    "never-compared-star-nested": ["v = [1]", "s = snapshot({'k': [(*v, 2), DC(x=[*v])]})"],
+    "compared-star-call-kwargs-loop": ["v = {'y': 2}", "for _ in (1, 2):", "    assert DC(x=1, y=2) == snapshot(DC(x=1, **v))"],
+    "compared-star-call-kwargs-wrong": ["v = {'y': 2}", "for _ in (1, 2):", "    assert DC(x=5, y=2) == snapshot(DC(x=1, **v))"],
     "never-compared-nested-name": ["v = DC(x=1)", "s = snapshot([v, {'k': v}])"],
     # inner snapshots
     "inner-parent-replaced": ["assert 5 == snapshot([snapshot(1+1)])"],
